@@ -39,7 +39,10 @@ pub fn exec(iter: Variable, function: Variable) -> ExecResult {
 }
 
 pub fn return_type(var_type: Type) -> Type {
-    let element_type = var_type.iter_element().unwrap();
+    // None only for an operand of static type `!` (e.g. narrowed to a diverging branch by the folding pass)
+    let Some(element_type) = var_type.iter_element() else {
+        return Type::Never;
+    };
     let element_type2 = element_type.clone();
     var_type!(([element_type], [element_type2]))
 }
